@@ -849,3 +849,102 @@ def _joinable(interp, args, kwargs, node):
     ts = [E._arg_term(interp, x) for x in interp.concrete_iter(dfs)] + [on.term]
     f = z3.Function(f"joinable{len(ts)}", *([t.sort() for t in ts] + [z3.BoolSort()]))
     return VBool(f(*ts))
+
+
+# ---- more column-wise frame operations (C09: TcrLevenshtein._expand_v_gene_cdrs) ----------------------------------------------
+
+def _frame_col_attr(interp, base, attr, node):
+    """df.NAME: the column NAME (AttributeError when there is no such column and NAME is not a DataFrame attribute)"""
+    if isinstance(base, VObj) and getattr(base, "cols", None) is not None and not attr.startswith("_"):
+        d = dict(base.cols)
+        if attr in d:
+            return d[attr]
+        if attr in ("columns", "copy", "rename", "groupby", "apply", "fillna", "sample", "index", "values", "map", "iloc", "loc", "shape",
+                    "set_index", "add_suffix", "filter", "isin", "value_counts", "dropna", "astype", "to_numpy", "empty", "size"):
+            return None
+        raise_py(interp, "AttributeError", f"'DataFrame' object has no attribute '{attr}'", node)
+    return None
+
+
+E.HOOKS["getattr"].append(_frame_col_attr)
+
+
+def _frame_setattr(interp, base, attr, v, node):
+    if isinstance(base, VObj) and getattr(base, "cols", None) is not None and attr in dict(base.cols):
+        if not (isinstance(v, VList) and isinstance(v.content, SymSeq)):
+            raise Unsupported("frame.NAME = <not a column>")
+        interp.check_mutable_target(base, node, f".{attr} =")
+        names = [n for n, _ in base.cols]
+        base.cols[names.index(attr)] = (attr, v)
+        if getattr(base, "nrows", None) is None:
+            base.nrows = v.content.length
+        return True
+    return None
+
+
+E.HOOKS["setattr"].append(_frame_setattr)
+
+_df_ctor_prev = E.EXTERNS["type:DataFrame"]
+
+
+def _df_ctor2(interp, args, kwargs, node):
+    cols = kwargs.get("columns")
+    if not args and cols is not None and set(kwargs) == {"columns"}:
+        names = [concrete_str(c) for c in interp.concrete_iter(cols)]
+        if all(n is not None for n in names):
+            interp.ctx.assumed.add("extern:pandas.DataFrame(columns=names) is an empty frame with those columns; assigning a Series to a column "
+                                   "of an empty frame gives the frame the Series' rows")
+            fr = VObj("DataFrame")
+            empty = lambda: VList(SymSeq(z3.IntVal(0), lambda k: VStr(""), T.Str), "Series")
+            fr.cols = [(n, empty()) for n in names]
+            fr.sid = "frame(" + ",".join(names) + ")"
+            fr.nrows = None
+            return interp.born(fr)
+    return _df_ctor_prev(interp, args, kwargs, node)
+
+
+E.EXTERNS["type:DataFrame"] = _df_ctor2
+
+
+def _frame_setitem_multi(interp, base, idx, v, node):
+    """df[[n1, n2]] = other_frame: the columns of other_frame are assigned positionally to the named columns"""
+    if isinstance(base, VObj) and getattr(base, "cols", None) is not None and isinstance(idx, VList) and isinstance(idx.content, ConcreteSeq):
+        names = [concrete_str(x) for x in idx.content.items]
+        if any(n is None for n in names) or not (isinstance(v, VObj) and getattr(v, "cols", None) is not None and len(v.cols) == len(names)):
+            raise Unsupported("frame[[...]] = <value> form")
+        interp.check_mutable_target(base, node, f"[{names!r}] =")
+        interp.ctx.assumed.add("extern:frame[[n1, n2]] = other (same index) assigns other's columns to n1, n2 in order")
+        cur = [n for n, _ in base.cols]
+        for n, (_, col) in zip(names, v.cols):
+            if n in cur:
+                base.cols[cur.index(n)] = (n, col)
+            else:
+                base.cols.append((n, col))
+                cur.append(n)
+        return True
+    return None
+
+
+E.HOOKS["setitem"].insert(0, _frame_setitem_multi)
+
+# tidytcells.tr.get_aa_sequence(v): mapping loop name -> amino-acid sequence of the V allele (third-party reference data: uninterpreted)
+_has_loop = z3.Function("v_has_loop", z3.StringSort(), z3.StringSort(), z3.BoolSort())
+_loop_seq = z3.Function("v_loop_seq", z3.StringSort(), z3.StringSort(), z3.StringSort())
+
+
+@extern("tidytcells.tr.get_aa_sequence")
+def _tt_get_aa(interp, args, kwargs, node):
+    v = args[0] if args else kwargs.get("gene")
+    if not isinstance(v, VStr) or len(args) + len(kwargs) != 1:
+        raise Unsupported("tr.get_aa_sequence argument form")
+    interp.ctx.assumed.add("extern:tidytcells.tr.get_aa_sequence(v) is the reference data's dict of sequence regions of allele v (uninterpreted)")
+    d = VDict(dom=lambda k: _has_loop(v.term, k.term), get=lambda k: VStr(_loop_seq(v.term, k.term)), key_kind=T.Str, val_kind=T.Str)
+    return d
+
+
+@S.spec("v_loop")
+def _v_loop(interp, args, kwargs, node):
+    """v_loop(v allele, n): the CDRn loop (n = 1, 2) of the allele according to the gene reference, '' when it has none"""
+    v, n = args
+    key = z3.StringVal(f"CDR{concrete_int(n)}-IMGT")
+    return VStr(z3.If(_has_loop(v.term, key), _loop_seq(v.term, key), z3.StringVal("")))
